@@ -24,7 +24,7 @@
 #include "evmap.c"      /* included (not linked) so that evmap_make_space is reachable */
 #include "evbase.h"
 
-enum { K_TIMER, K_TIMER_P, K_IO, K_IO_P, K_SIG_P };
+enum { K_TIMER, K_TIMER_P, K_IO, K_IO_P, K_SIG_P, K_CTIMER /* timer using event_base_init_common_timeout durations (C01e): supported by the model, but NOT used by any obligation -- cbmc cannot fold struct event's ev_timeout_pos union once both members were written (measured, see props/C01.py) */ };
 #ifndef C02_KIND0
 #define C02_KIND0 K_TIMER
 #endif
@@ -49,6 +49,7 @@ struct mev {
 	short res; short ncalls;
 	struct timeval deadline, interval;
 	long seq;              /* activation order */
+	long to_seq; int to_queue; /* common-timeout queue (-1: heap) and insertion order into it */
 };
 static struct mev m[2];
 static int m_count, m_count_max, m_active, m_active_max;
@@ -88,6 +89,7 @@ static void m_del(int k)
 }
 /* documented: after event_add() returns 0 the event is pending on its I/O / signal events
  * and (if a timeout was given) on the timeout, which replaces any previous one */
+static int m_queue_of_next_add = -1; static long m_to_seq;
 static int m_add(int k, const struct timeval *tv, int absolute, int backend_refuses)
 {
 	if (is_io(k) && !m[k].inserted) {
@@ -100,6 +102,7 @@ static int m_add(int k, const struct timeval *tv, int absolute, int backend_refu
 		if (m[k].active && (m[k].res & EV_TIMEOUT)) m_deactivate(k);   /* re-adding a timed-out event cancels the pending timeout callback */
 		m[k].deadline = absolute ? *tv : t_add(vp_now, *tv);
 		m[k].has_to = 1; inc();
+		m[k].to_queue = m_queue_of_next_add; m[k].to_seq = m_to_seq++;
 	}
 	return 0;
 }
@@ -113,10 +116,12 @@ static int m_loop(void)
 		for (j = 0; j < 2; j++) {
 			int best = -1;
 			for (k = 0; k < 2; k++)
-				if (m[k].has_to && t_le(m[k].deadline, vp_now) && (best < 0 || t_lt(m[k].deadline, m[best].deadline))) best = k;
+				if (m[k].has_to && t_le(m[k].deadline, vp_now) && (best < 0 || t_lt(m[k].deadline, m[best].deadline) ||
+				    (m[k].to_queue >= 0 && m[k].to_queue == m[best].to_queue && !t_lt(m[best].deadline, m[k].deadline) && m[k].to_seq < m[best].to_seq))) best = k;
 			if (best < 0) break;
 			for (k = 0; k < 2; k++)
-				if (k != best && m[k].has_to && m[k].deadline.tv_sec == m[best].deadline.tv_sec && m[k].deadline.tv_usec == m[best].deadline.tv_usec) m_tie = 1;
+				if (k != best && m[k].has_to && m[k].deadline.tv_sec == m[best].deadline.tv_sec && m[k].deadline.tv_usec == m[best].deadline.tv_usec &&
+				    !(m[k].to_queue >= 0 && m[k].to_queue == m[best].to_queue)) m_tie = 1;   /* (one common-timeout queue is FIFO: its order IS specified) */
 			if (!m[best].active) { m_del(best); m_activate(best, EV_TIMEOUT, 1); }
 			else { m[best].has_to = 0; dec(); m[best].res |= EV_TIMEOUT; }
 		}
@@ -136,6 +141,7 @@ static int m_loop(void)
 					if (m[best].interval.tv_sec || m[best].interval.tv_usec) {
 						struct timeval at = t_add((res & EV_TIMEOUT) ? m[best].deadline : vp_now, m[best].interval);
 						if (t_lt(at, vp_now)) at = t_add(vp_now, m[best].interval);
+						m_queue_of_next_add = -1;
 						m_add(best, &at, 1, 0);
 					}
 				} else {
@@ -210,6 +216,7 @@ static void observe(void)
 
 /* ---- the history tree ----------------------------------------------------- */
 static const struct timeval TV[3] = { { 0, 0 }, { 1, 0 }, { 2, 0 } };
+static const struct timeval *ctv[2];   /* common-timeout handles for 1 s and 2 s */
 static int n_leaves_add_tv, n_leaves_loop_cb, n_refused;
 
 #define C02_NSEL 26
@@ -230,20 +237,22 @@ static void run(int depth);
 static void op_add(int k, int tvi, int depth)
 {
 	int refuse = 0, r;
-	const struct timeval *tv = tvi < 0 ? NULL : &TV[tvi + (persist(k) ? 1 : 0)];
+	const struct timeval *tv = tvi < 0 ? NULL : &TV[tvi + ((persist(k) || kind[k] == K_CTIMER) ? 1 : 0)];
+	const struct timeval *tv_arg = (tv && kind[k] == K_CTIMER) ? ctv[tvi] : tv;   /* same duration, with the common-timeout tag */
+	m_queue_of_next_add = (tv && kind[k] == K_CTIMER) ? tvi : -1;
 	if (is_io(k) && !m[k].inserted) refuse = vp_bool();
 	/* branch on the back end's answer BEFORE the call, so that inside each branch the library
 	 * runs with a concrete answer and nothing is merged; the rest of the history runs inside */
 	if (refuse) {
 		vp_be_fail_add = 1; vp_sig_fail = 1;
-		r = event_add(evp[k], tv);
+		r = event_add(evp[k], tv_arg);
 		vp_be_fail_add = 0; vp_sig_fail = 0;
 		VP_ASSERT(r == -1, "C02: event_add must fail when the back end refuses the registration");
 		VP_ASSERT(m_add(k, tv, 0, 1) == -1, "C02: model");
 		n_refused++;
 		observe(); run(depth + 1);
 	} else {
-		r = event_add(evp[k], tv);
+		r = event_add(evp[k], tv_arg);
 		VP_ASSERT(r == 0, "C02: event_add must succeed");
 		m_add(k, tv, 0, 0);
 		if (tv) n_leaves_add_tv++;
@@ -309,16 +318,6 @@ static void run(int depth)
 	/* selector: 12 calls per event x 2 events + 2 loop calls = 26 alternatives.  The first
 	 * C02_PREFIX_LEN calls are fixed by the obligation (the driver enumerates all of them), the
 	 * remaining ones are chosen by the solver. */
-#ifdef C02_FIRST
-	/* the first call is one of a group of alternatives listed by the obligation (the driver
-	 * partitions the 26 alternatives into groups to bound the size of one tree) */
-	if (depth == 0) {
-		static const int first[] = { C02_FIRST };
-		int fi = (int)vp_range(0, sizeof(first) / sizeof(first[0]) - 1), j;
-		op = first[0];
-		for (j = 0; j < (int)(sizeof(first) / sizeof(first[0])); j++) if (fi == j) op = first[j];
-	} else
-#endif
 	op = depth < C02_PREFIX_LEN ? c02_prefix[depth] : (int)vp_range(C02_SELMIN, C02_SELMAX);
 	k = op >= 12 && op < 24;
 	/* cbmc limitation (measured): struct event keeps {ev_io_next, ev_io_timeout} and
@@ -331,6 +330,12 @@ static void run(int depth)
 		int o = op % 12;
 		if (kind[k] == K_IO_P) __CPROVER_assume(o != 1 && o != 2);
 		if (kind[k] == K_SIG_P) __CPROVER_assume(o < 4 || o > 8);
+#ifndef KF_ONLY_sigtimeout
+		/* known finding KF-C02-signal-timeout-drops-persistent-signal: a persistent signal event
+		 * that is given a timeout is deleted (signal registration included) when the timeout
+		 * fires; excluded here, confirmed to still fail by obligation kf_sigtimeout */
+		if (kind[k] == K_SIG_P) __CPROVER_assume(o != 1 && o != 2);
+#endif
 	}
 	switch (op < 24 ? op % 12 : op - 12) {
 	case 0: PER_EVENT(op_add(K, -1, depth)); break;
@@ -365,6 +370,7 @@ void harness_history(void)
 		case K_TIMER_P: events = EV_PERSIST; break;
 		case K_IO: events = EV_READ; fd = 5 + k; break;
 		case K_IO_P: events = EV_READ | EV_PERSIST; fd = 5 + k; break;
+		case K_CTIMER: break;
 		default: events = EV_SIGNAL | EV_PERSIST; fd = 10 + k; break;
 		}
 		VP_ASSERT(event_assign(evp[k], base, fd, events, cb, evp[k]) == 0, "C02: event_assign");
@@ -376,6 +382,12 @@ void harness_history(void)
 	__CPROVER_assume(k == 0);
 	k = evmap_make_space(&base->sigmap, 12, sizeof(struct evmap_signal *));
 	__CPROVER_assume(k == 0);
+	if (kind[0] == K_CTIMER || kind[1] == K_CTIMER) {
+		ctv[0] = event_base_init_common_timeout(base, &TV[1]);
+		ctv[1] = event_base_init_common_timeout(base, &TV[2]);
+		VP_ASSERT(ctv[0] != NULL && ctv[1] != NULL && ctv[0] != ctv[1], "C01: event_base_init_common_timeout");
+		VP_ASSERT(ctv[0]->tv_sec == 1 && (ctv[0]->tv_usec & COMMON_TIMEOUT_MICROSECONDS_MASK) == 0, "C01: common timeout keeps its duration");
+	}
 	observe();
 	run(0);
 }
